@@ -75,6 +75,13 @@ class RuntimeContract:
             when = c.arg(1) or c.kwarg("when")
             self.raises.append((c.label or str(c.idx), _Expr(c.arg(0), g), _Expr(when, g) if when is not None else None))
         self.may_raise = [_Expr(c.arg(0), g) for c in con.of("may_raise")]
+        self.known = []
+        for c in con.of("known_finding"):
+            when = c.arg(1) or c.kwarg("when")
+            self.known.append((_Expr(c.arg(0), g), _Expr(when, g) if when is not None else None))
+        self.realize = None
+        for c in con.of("replay_with"):
+            self.realize = eval(compile(ast.Expression(c.arg(0)), "<replay_with>", "eval"), g)  # pylint: disable=eval-used
         self.modifies = set()
         for c in con.of("modifies"):
             for t in c.node.args:
@@ -89,6 +96,8 @@ class RuntimeContract:
     def check_call(self, kwargs: dict, timeout_s: Optional[float] = None) -> dict:
         """Call the real function on kwargs and evaluate the contract.  Returns a report dict."""
         rep: dict = {"target": self.con.target, "violations": [], "applicable": True, "spec_errors": []}
+        if getattr(self, "_from_model", False) and self.realize is not None:
+            kwargs = self.realize(kwargs)  # abstract (ghost-only) objects of a counter-model become real ones
         env = dict(kwargs)
         try:
             for name, ex in self.lets:
@@ -98,6 +107,9 @@ class RuntimeContract:
                     rep["applicable"] = False
                     rep["note"] = f"precondition {label} does not hold"
                     return rep
+            for id_e, when_e in self.known:
+                if when_e is None or when_e.eval(env):
+                    rep["known_class"] = id_e.eval(env)
             whens = []
             for label, exc_e, when_e in self.raises:
                 whens.append((label, exc_e.eval(env), True if when_e is None else bool(when_e.eval(env))))
